@@ -161,21 +161,19 @@ theorem select_clause_arity (its : List Item) : (itemShapes its).length = its.le
 
 /-! ### statement‑type renamings the shape correspondence allow‑lists, checked against the REGENERATED dispatch table -/
 
-/-- dialect statement types that stand for a core statement type (postgres / greenplum / redshift / vertica CTAS) -/
-def stmtTypeAliases : List (String × String) := [("create_table_as_statement", "create_table_statement")]
-
 /-- a renamed statement type is lineage‑neutral: the same extractor claims both names (over the generated tables, so
     dropping one of them from `SUPPORTED_STMT_TYPES` breaks this proof and sends the check searching) -/
 theorem alias_same_extractor :
     ∀ p ∈ stmtTypeAliases, dispatch p.1 = dispatch p.2 ∧ (dispatch p.1).isSome = true := by decide
 
 /-- finding K3 (impala): the type impala gives CREATE TABLE … AS is claimed by NO extractor … -/
-theorem dev_K3_unclaimed : dispatch "create_table_as_select_statement" = none := by decide
+theorem dev_K3_unclaimed : ∀ p ∈ stmtTypeUnclaimed, dispatch p.1 = none ∧ (dispatch p.2).isSome = true := by decide
 
 /-- … so the statement is reported unsupported (or, in silent mode, yields nothing) although it is a core statement -/
 theorem dev_K3_unsupported (env : Env) (s : Stmt) (h : stmtType s = "create_table_as_select_statement") :
     analyze env false s = .error .unsupported ∧ analyze env true s = .ok Graph.empty :=
-  C01.dispatch_total env s (by rw [h]; exact dev_K3_unclaimed)
+  C01.dispatch_total env s (by
+    rw [h]; exact (dev_K3_unclaimed ("create_table_as_select_statement", "create_table_statement") (by simp [stmtTypeUnclaimed])).1)
 
 /-! ### the agreement classes: witnesses and non‑vacuity -/
 
